@@ -405,7 +405,8 @@ namespace occa {
       // However, make sure we aren't parsing an identifier:
       //   - true_var
       //   - false_case
-      if (isPrimitive && !lex::inCharset(*pos, charcodes::identifierStart)) {
+      //   - true1
+      if (isPrimitive && !lex::inCharset(*pos, charcodes::identifier)) {
         return tokenType::primitive;
       }
       if (lex::inCharset(c, charcodes::identifierStart)) {
